@@ -44,17 +44,26 @@ structure Pend where
     is NOT linearizable as an exact emptiness test: while a pop_front/try_remove that has already
     taken the last node is still in flight (its effect is visible to other operations — e.g. a
     try_remove of the popped node already reports `false` — but it has not yet stored the new head)
-    `empty()` still reports "not empty".  The error is one-sided (it never reports "empty" for a
-    non-empty list), which is the direction async_mutex' Dekker re-check tolerates (a spurious
-    re-acquire).  Accordingly the specification used by the tie is: `empty() = true` is exact;
+    `empty()` still reports "not empty" (harmless for async_mutex: a spurious re-acquire).
+    It also errs in the other direction: while a push_back onto the EMPTY list is in flight (it
+    holds the lock bit of `head_`, whose value is still the sentinel) a second push_back can link
+    its node behind the first one and RETURN, and `empty()` still reports "empty" — after a
+    completed push_back.  (For async_mutex this is not a lost wake-up: the in-flight pusher performs
+    its own `locked_.exchange` after its push completes and then drains the list.)
+    Accordingly the specification used by the tie gives `empty()` this slack and nothing else:
     `empty() = false` is also allowed when a removal by another thread is linearized but has not
-    returned yet. -/
+    returned yet (`removalInFlight`); `empty() = true` is also allowed while a push_back by another
+    thread has been called and has not returned (`pushInFlight`).  `linearizableStrict` is the
+    exact specification; the check reports how many explored histories need the slack. -/
 def removalInFlight (pend : List Pend) (me : Nat) : Bool :=
   pend.any (fun q => q.t ≠ me &&
     (match q.op, q.res with
      | .pop, some (some _) => true
      | .rm _, some (some 1) => true
      | _, _ => false))
+
+def pushInFlight (pend : List Pend) (me : Nat) : Bool :=
+  pend.any (fun q => q.t ≠ me && (match q.op with | .push _ => true | _ => false))
 
 /-- Wing–Gong search: at every point either consume the next event of the history (a call makes the
     operation pending; a return requires that the operation has been linearized with exactly that
@@ -78,7 +87,10 @@ def search (slack : Bool) : Nat → List Ev → List Nat → List Pend → Bool
        ||
        -- the one-sided slack of empty(), see `removalInFlight`
        (slack && p.op = .empty && st.isEmpty && removalInFlight pend p.t &&
-        search slack fuel (e :: rest) st (pend.map (fun q => if q.t = p.t then { q with res := some (some 0) } else q)))))
+        search slack fuel (e :: rest) st (pend.map (fun q => if q.t = p.t then { q with res := some (some 0) } else q)))
+       ||
+       (slack && p.op = .empty && !st.isEmpty && pushInFlight pend p.t &&
+        search slack fuel (e :: rest) st (pend.map (fun q => if q.t = p.t then { q with res := some (some 1) } else q)))))
 
 /-- linearizable w.r.t. the specification with the one-sided slack of `empty()` -/
 def linearizable (init : List Nat) (h : List Ev) : Bool := search true (3 * h.length + 3) h init []
@@ -128,9 +140,12 @@ example : linearizable [] [.call 0 (.push 0), .ret 0 none, .call 3 .pop, .call 2
     .call 2 .empty, .ret 2 (some 0), .ret 3 (some 0)] = true := by decide
 example : linearizableStrict [] [.call 0 (.push 0), .ret 0 none, .call 3 .pop, .call 2 (.rm 0), .ret 2 (some 0),
     .call 2 .empty, .ret 2 (some 0), .ret 3 (some 0)] = false := by decide
--- … but not once that pop has returned, and never "empty" for a non-empty list
+-- … but not once that pop has returned, and not "empty" for a non-empty list without a push in flight
 example : linearizable [] [.call 0 (.push 0), .ret 0 none, .call 3 .pop, .ret 3 (some 0),
     .call 2 .empty, .ret 2 (some 0)] = false := by decide
 example : linearizable [] [.call 0 (.push 0), .ret 0 none, .call 2 .empty, .ret 2 (some 1)] = false := by decide
+-- the other slack: "empty" after a completed push_back while an earlier-ordered push_back is in flight
+example : linearizable [] [.call 1 (.push 0), .call 2 (.push 1), .ret 1 none, .call 1 .empty, .ret 1 (some 1), .ret 2 none] = true := by decide
+example : linearizableStrict [] [.call 1 (.push 0), .call 2 (.push 1), .ret 1 none, .call 1 .empty, .ret 1 (some 1), .ret 2 none] = false := by decide
 
 end Unifex.Proto.AList
